@@ -333,7 +333,7 @@ func c16Run(t *testing.T, c *evid.Collector) {
 			}
 		}
 	}
-	rapidRun(t, "twin", evid.Scale(700, 20000), func(rt *rapid.T) {
+	rapidRun(t, "twin", evid.Scale(2500, 40000), func(rt *rapid.T) {
 		cs := rapid.SampledFrom(c16Modes).Draw(rt, "mode")
 		cs.Setup = setup
 		// generator context from a scratch run of the setup
